@@ -431,3 +431,39 @@ class _Noops(ast.NodeTransformer):
 
 TRANSFORMS["annotated_assignments"] = _Annotate
 TRANSFORMS["inserted_pass"] = _Noops
+
+
+class _HoistCalls(ast.NodeTransformer):
+    """in `x = f(..., g(...), ...)` / `return f(..., g(...))` / `f(..., g(...))` at block level, positional arguments that are calls are computed into
+    temporaries first, left to right (`h_1 = g(...); x = f(..., h_1, ...)`); only when every earlier argument is a name / constant / attribute chain"""
+    n = 0
+
+    def _hoist(self, s):
+        v = s.value if isinstance(s, (ast.Assign, ast.Return, ast.Expr)) else None
+        if not isinstance(v, ast.Call) or any(isinstance(a, ast.Starred) for a in v.args):
+            return [s]
+        if not isinstance(v.func, (ast.Name, ast.Attribute)) or any(isinstance(x, ast.Call) for x in ast.walk(v.func)):
+            return [s]
+        pre = []
+        for i, a in enumerate(v.args):
+            if isinstance(a, ast.Call):
+                _HoistCalls.n += 1
+                t = f"hoisted_{_HoistCalls.n}"
+                pre.append(ast.Assign(targets=[ast.Name(id=t, ctx=ast.Store())], value=a, type_comment=None))
+                v.args[i] = ast.Name(id=t, ctx=ast.Load())
+            elif not all(isinstance(x, (ast.Name, ast.Constant, ast.Attribute, ast.Load, ast.UnaryOp, ast.USub)) for x in ast.walk(a)):
+                break
+        return pre + [s]
+
+    def generic_visit(self, node):
+        super().generic_visit(node)
+        if isinstance(node, (ast.ClassDef, ast.Module)):
+            return node
+        for f in ("body", "orelse", "finalbody"):
+            v = getattr(node, f, None)
+            if isinstance(v, list) and v and isinstance(v[0], ast.stmt):
+                setattr(node, f, [x for s in v for x in self._hoist(s)])
+        return node
+
+
+TRANSFORMS["hoisted_calls"] = _HoistCalls
